@@ -38,7 +38,7 @@ func init() {
 			"oracle: whenever validation under any configured SP accepts, the pre-decode succeeded and reports the same ID, InResponseTo, Destination, Version, Issuer, so the routed-to configuration is the accepting one; distinct = shape hash (kind, placement, layout, envelope ops, presentation, outcomes)",
 		Directed:   c20Directed,
 		Run:        c20Run,
-		MustHit:    []string{"kind=Response", "kind=LogoutResponse", "op=dup-id", "op=shadow-id-after", "op=second-issuer-last", "op=second-issuer-first", "op=nested-issuer", "op=comment-in-issuer", "compressed", "skip_config", "accepted_with_ops", "route_to_B", "op=pi-in-issuer", "issuer_unconfigured", "op=encrypted-issuer-after-issuer", "op=encrypted-issuer-last", "op=nsdecl-id-after", "op=second-root-trailing", "op=polyglot-directive-stored-block", "signed_envelope_shaped", "message_of_megabytes_compressed"},
+		MustHit:    []string{"kind=Response", "kind=LogoutResponse", "op=dup-id", "op=shadow-id-after", "op=second-issuer-last", "op=second-issuer-first", "op=nested-issuer", "op=comment-in-issuer", "compressed", "skip_config", "accepted_with_ops", "route_to_B", "op=pi-in-issuer", "issuer_unconfigured", "op=encrypted-issuer-after-issuer", "op=encrypted-issuer-last", "op=nsdecl-id-after", "op=second-root-trailing", "op=polyglot-directive-stored-block", "signed_envelope_shaped", "message_of_megabytes_compressed", "idp_signed_shadow_attributes"},
 		RandomRuns: map[string]int{"quick": 6000, "thorough": 80000},
 	})
 }
@@ -150,6 +150,11 @@ func c20Run(r *core.Run) {
 		r.Probe("message_of_megabytes_compressed")
 	}
 	lay := world.DrawLayout(t)
+	if sh := t.Int(8, "c20.idpshadow"); sh >= 1 && sh <= 2 {
+		// the IdP itself (and its signature) carries vendor attributes spelled like the SAML ones
+		lay.ShadowRoot, lay.Shuffle = sh, false
+		r.Probe("idp_signed_shadow_attributes")
+	}
 	xml, err := idp.Issue(m, lay, r.Sim.Now())
 	if err != nil {
 		r.HarnessError("issue: %v", err)
